@@ -34,7 +34,7 @@ theorem C20_add (a b : BitVec 64) (ha : a.toNat < P) (hb : b.toNat < P) :
     (add_assign a b).toNat = (a.toNat + b.toNat) % P ∧ (add_assign a b).toNat < P ∧
     plus a b = add_assign a b := by
   have h : (add_assign a b).toNat = (a.toNat + b.toNat) % P := by
-    rw [add_assign_toNat]; exact addN_spec _ _ ha hb
+    exact add_assign_spec a b ha hb
   exact ⟨h, by rw [h]; exact Nat.mod_lt _ P_pos, rfl⟩
 
 /-- `a -= b` and `a - b` -/
@@ -43,7 +43,7 @@ theorem C20_sub (a b : BitVec 64) (ha : a.toNat < P) (hb : b.toNat < P) :
     ((sub_assign a b).toNat + b.toNat) % P = a.toNat % P ∧
     minus a b = sub_assign a b := by
   have h : (sub_assign a b).toNat = (a.toNat + (P - b.toNat)) % P := by
-    rw [sub_assign_toNat]; exact subN_spec _ _ ha hb
+    exact sub_assign_spec a b ha hb
   refine ⟨h, by rw [h]; exact Nat.mod_lt _ P_pos, ?_, rfl⟩
   rw [h, Nat.mod_add_mod]
   have e : a.toNat + (P - b.toNat) + b.toNat = a.toNat + P := by omega
@@ -54,7 +54,7 @@ theorem C20_cneg (a : BitVec 64) (flag : Bool) (ha : a.toNat < P) :
     (cneg a flag).toNat = (if flag = true then (P - a.toNat) % P else a.toNat) ∧ (cneg a flag).toNat < P ∧
     cneg_f a flag = cneg a flag := by
   have h : (cneg a flag).toNat = (if flag = true then (P - a.toNat) % P else a.toNat) := by
-    rw [cneg_toNat]; exact cnegN_spec _ _ ha
+    exact cneg_spec a flag ha
   refine ⟨h, ?_, rfl⟩
   rw [h]
   split
@@ -79,7 +79,7 @@ theorem C20_final_reduce (a : BitVec 64) :
     (final_reduce a).toNat = a.toNat % P ∧ (final_reduce a).toNat < P ∧
     to_ a = final_reduce a ∧ of_u64 a = final_reduce a ∧ to_u64 a = a := by
   have h : (final_reduce a).toNat = a.toNat % P := by
-    rw [final_reduce_toNat]; exact finalN_spec _ a.isLt
+    exact final_reduce_spec a
   exact ⟨h, by rw [h]; exact Nat.mod_lt _ P_pos, rfl, rfl, rfl⟩
 
 /-! ### multiplication, squaring, multiplication by a 32-bit word: ALL 64-bit operands, both variants -/
